@@ -177,6 +177,35 @@ def _run_shard(args):
     return acc
 
 
+def _run_isolated(fn, shard, idx):
+    """run one shard in its own forked process (used after a pool worker died, to find the culprit)"""
+    ctx = multiprocessing.get_context("fork")
+    r, w = ctx.Pipe(duplex=False)
+
+    def child():
+        try:
+            w.send(_run_shard((fn, shard, idx)))
+        finally:
+            w.close()
+    p = ctx.Process(target=child)
+    p.start()
+    w.close()
+    res = None
+    try:
+        if r.poll(3600):
+            res = r.recv()
+    except (EOFError, OSError):
+        res = None
+    p.join(10)
+    if p.is_alive():
+        p.kill()
+    if res is None:
+        res = Acc()
+        res.error("worker process died (exit code %s) while running shard %s: a crash in native code or the harness"
+                  % (p.exitcode, short(shard, 60)))
+    return res
+
+
 def pmap(fn, shards, workers=None, acc=None):
     shards = list(shards)
     acc = acc if acc is not None else Acc()
@@ -185,11 +214,22 @@ def pmap(fn, shards, workers=None, acc=None):
         for i, s in enumerate(shards):
             acc.merge(_run_shard((fn, s, i)))
         return acc
+    import concurrent.futures as cf
+    from concurrent.futures.process import BrokenProcessPool
     ctx = multiprocessing.get_context("fork")
-    with ctx.Pool(min(workers, len(shards))) as pool:
-        for a in pool.imap_unordered(_run_shard, [(fn, s, i) for i, s in enumerate(shards)],
-                                     chunksize=1):
-            acc.merge(a)
+    done = set()
+    try:
+        with cf.ProcessPoolExecutor(max_workers=min(workers, len(shards)), mp_context=ctx) as ex:
+            futs = {ex.submit(_run_shard, (fn, s, i)): i for i, s in enumerate(shards)}
+            for f in cf.as_completed(futs):
+                acc.merge(f.result())
+                done.add(futs[f])
+    except BrokenProcessPool:
+        # a worker died (segfault/abort): re-run every unfinished shard in its own process so that the
+        # culprit is identified and the others still count
+        for i, s in enumerate(shards):
+            if i not in done:
+                acc.merge(_run_isolated(fn, s, i))
     return acc
 
 
